@@ -22,9 +22,10 @@ Next ==
   \/ \E r \in Replica, runs \in RunChoices : Room(Len(runs)) /\ NewBug(r, runs, Rk)
   \/ \E r \in Replica, b \in Bugs, runs \in RunChoices : Room(Len(runs)) /\ Edit(r, b, runs, Rk)
   \/ \E r \in Replica, b \in Bugs : Read(r, b)
-  \/ \E r \in Replica : (\E b \in Bugs : ref[r][b] # 0) /\ Push(r)
-  \/ \E r \in Replica : Fetch(r)
-  \/ \E r \in Replica, b \in Bugs : Room(1) /\ Merge(r, b, a1, Rk)
+  \/ \E r \in Replica, m \in Remote : (\E b \in Bugs : ref[r][b] # 0) /\ Push(r, m)
+  \/ \E r \in Replica, m \in Remote : Fetch(r, m)
+  \/ \E r \in Replica, m \in Remote : FetchRefused(r, m)
+  \/ \E r \in Replica, m \in Remote, b \in Bugs : Room(1) /\ Merge(r, m, b, a1, Rk)
   \/ WithRestart /\ \E r \in Replica, l \in (IF LoaderLess THEN BOOLEAN ELSE {TRUE}) : Reopen(r, l)
   \/ WithRestart /\ \E r \in Replica, w \in 0..2 : DeleteClocks(r, w)
 
@@ -32,9 +33,9 @@ Spec == Init /\ [][Next]_vars
 
 (* only synchronisation steps: used for the liveness clause of C01 *)
 SyncNext ==
-  \/ \E r \in Replica : (\E b \in Bugs : ref[r][b] # 0) /\ Push(r)
-  \/ \E r \in Replica : Fetch(r)
-  \/ \E r \in Replica, b \in Bugs : Room(1) /\ Merge(r, b, a1, Rk)
+  \/ \E r \in Replica, m \in Remote : (\E b \in Bugs : ref[r][b] # 0) /\ Push(r, m)
+  \/ \E r \in Replica, m \in Remote : Fetch(r, m)
+  \/ \E r \in Replica, m \in Remote, b \in Bugs : Room(1) /\ Merge(r, m, b, a1, Rk)
 
 View == <<commits, nops, ref, trk, hub, clk, res>>
 =============================================================================
